@@ -4,6 +4,7 @@
 #include <stdint.h>
 #include <string.h>
 #include <stdatomic.h>
+#include <malloc.h>
 static void *(*real_malloc)(size_t); static void (*real_free)(void*); static void *(*real_realloc)(void*, size_t);
 static __thread int in_hook = 0;
 #define MAXEV 65536
@@ -13,7 +14,10 @@ static char boot[1<<16]; static size_t boot_off = 0;
 static void init(void){ if(!real_malloc){ in_hook=1; real_malloc=dlsym(RTLD_NEXT,"malloc"); real_free=dlsym(RTLD_NEXT,"free"); real_realloc=dlsym(RTLD_NEXT,"realloc"); in_hook=0; } }
 static void rec(int k, uintptr_t a, uintptr_t b, size_t n){ if(atomic_load(&recording)){ int i=atomic_fetch_add(&nev,1); if(i<MAXEV){evs[i].kind=k;evs[i].a=a;evs[i].b=b;evs[i].n=n;} } }
 void *malloc(size_t n){ if(!real_malloc){ if(in_hook){ void*p=boot+boot_off; boot_off+=(n+15)&~15; return p;} init(); } void*p=real_malloc(n); rec(1,(uintptr_t)p,0,n); return p; }
-void free(void*p){ if(!p) return; if((char*)p>=boot && (char*)p<boot+sizeof boot) return; if(!real_free) init(); rec(2,(uintptr_t)p,0,0); real_free(p); }
+void free(void*p){ if(!p) return; if((char*)p>=boot && (char*)p<boot+sizeof boot) return; if(!real_free) init(); rec(2,(uintptr_t)p,0,0);
+  /* while recording, released memory is poisoned: a read after free yields garbage deterministically */
+  if(atomic_load(&recording)){ size_t u=malloc_usable_size(p); if(u) memset(p,0xA5,u); }
+  real_free(p); }
 void *realloc(void*p,size_t n){ if(!real_realloc) init(); void*q=real_realloc(p,n); rec(3,(uintptr_t)p,(uintptr_t)q,n); return q; }
 void verif_record(int on){ atomic_store(&recording,on); }
 int verif_nev(void){ return atomic_load(&nev); }
